@@ -41,7 +41,9 @@ func (pid *PeerID) UnmarshalText(data []byte) error {
 	if len(data) != enc.EncodedLen(len(pid)) {
 		return errors.New("data is wrong length")
 	}
-	enc.Decode(pid[:], data)
+	if _, err := enc.Decode(pid[:], data); err != nil {
+		return err
+	}
 	return nil
 }
 
